@@ -1,3 +1,215 @@
 import Cppcms.Common
-/-! Line-protocol driver for C19 (stub: model not written yet). -/
-def main : IO Unit := Cppcms.lineLoop () (fun s _ => (s, "unimplemented"))
+import Cppcms.C19.Model
+import Cppcms.C19.Spec
+/-! Line-protocol driver for C19 (same protocol as `harness/c19.cpp`); `J` lines evaluate the
+property predicates of `Spec.lean` on outputs produced by the implementation. -/
+open Cppcms Cppcms.C19
+
+namespace Cppcms.C19.Driver
+
+/-- type words in prefix notation (see harness/c19.cpp) -/
+def parseTy : Nat → List String → Option (Ty × List String)
+  | 0, _ => none
+  | _, [] => none
+  | fuel + 1, tok :: rest =>
+    let un (f : Ty → Ty) := match parseTy fuel rest with
+      | some (t, r) => some (f t, r)
+      | none => none
+    let bin (f : Ty → Ty → Ty) := match parseTy fuel rest with
+      | some (a, r) => (match parseTy fuel r with
+        | some (b, r') => some (f a b, r')
+        | none => none)
+      | none => none
+    match tok with
+    | "p1" => some (.pod 1, rest)
+    | "p2" => some (.pod 2, rest)
+    | "p4" => some (.pod 4, rest)
+    | "i4" => some (.pod 4, rest)
+    | "p8" => some (.pod 8, rest)
+    | "d8" => some (.pod 8, rest)
+    | "s" => some (.str, rest)
+    | "v1" => some (.vecPod 1, rest)
+    | "v2" => some (.vecPod 2, rest)
+    | "v4" => some (.vecPod 4, rest)
+    | "v8" => some (.vecPod 8, rest)
+    | "L" => un .seq
+    | "Q" => un .seq
+    | "S" => un .set
+    | "R" => un .ptr
+    | "U" => un .ptr
+    | "C" => un .ptr
+    | "B" => un id
+    | "M" => bin .map
+    | "P" => bin .pair
+    | "X" => bin .pair
+    | _ => none
+
+def tyOf (w : String) : Option Ty :=
+  let toks := w.splitOn "."
+  match parseTy (toks.length + 1) toks with
+  | some (t, []) => some t
+  | _ => none
+
+def tagged (tag : Char) (tok : String) : Option Bytes :=
+  match tok.toList with
+  | c :: rest => if c == tag then parseHexAux rest [] else none
+  | [] => none
+
+def parseN {α : Type} (p : List String → Option (α × List String)) : Nat → List String → Option (List α × List String)
+  | 0, toks => some ([], toks)
+  | n + 1, toks =>
+    match p toks with
+    | none => none
+    | some (a, r) => match parseN p n r with
+      | none => none
+      | some (as, r') => some (a :: as, r')
+
+def count (tok : String) : Option Nat :=
+  match tok.toList with
+  | 'n' :: rest => (String.ofList rest).toNat?
+  | _ => none
+
+/-- `norm`: insert set/map elements the way the containers do (case input); otherwise take the
+lists as given (judging an implementation output) -/
+def parseVal (norm : Bool) : (ty : Ty) → List String → Option (Val ty × List String)
+  | .pod n, toks => match toks with
+    | t :: r => (match tagged 'x' t with
+      | some b => if b.length == n then some (b, r) else none
+      | none => none)
+    | [] => none
+  | .str, toks => match toks with
+    | t :: r => (match tagged 's' t with | some b => some (b, r) | none => none)
+    | [] => none
+  | .vecPod n, toks => match toks with
+    | t :: r => (match tagged 'x' t with
+      | some b => if b.length % n == 0 then some (b, r) else none
+      | none => none)
+    | [] => none
+  | .seq t, toks => match toks with
+    | c :: r => (match count c with | some n => parseN (parseVal norm t) n r | none => none)
+    | [] => none
+  | .set t, toks => match toks with
+    | c :: r => (match count c with
+      | some n => (match parseN (parseVal norm t) n r with
+        | some (l, r') => some (if norm then setOfList (lt t) l else l, r')
+        | none => none)
+      | none => none)
+    | [] => none
+  | .map k v, toks => match toks with
+    | c :: r => (match count c with
+      | some n => (match parseN (fun ts => match parseVal norm k ts with
+                              | some (x, r1) => (match parseVal norm v r1 with
+                                | some (y, r2) => some ((x, y), r2)
+                                | none => none)
+                              | none => none) n r with
+        | some (l, r') => some (if norm then mapOfList (lt k) l else l, r')
+        | none => none)
+      | none => none)
+    | [] => none
+  | .pair a b, toks => match parseVal norm a toks with
+    | some (x, r1) => (match parseVal norm b r1 with
+      | some (y, r2) => some ((x, y), r2)
+      | none => none)
+    | none => none
+  | .ptr t, toks => match toks with
+    | "0" :: r => some (none, r)
+    | "1" :: r => (match parseVal norm t r with | some (x, r') => some (some x, r') | none => none)
+    | _ => none
+
+def rawHex (bs : Bytes) : String :=
+  String.ofList (bs.flatMap fun b => [hexChar (b.toNat / 16), hexChar (b.toNat % 16)])
+
+def dumpVal : (ty : Ty) → Val ty → List String
+  | .pod _, v => ["x" ++ rawHex v]
+  | .str, v => ["s" ++ rawHex v]
+  | .vecPod _, v => ["x" ++ rawHex v]
+  | .seq t, v => s!"n{v.length}" :: v.flatMap (dumpVal t)
+  | .set t, v => s!"n{v.length}" :: v.flatMap (dumpVal t)
+  | .map k w, v => s!"n{v.length}" :: v.flatMap (fun x => dumpVal k x.1 ++ dumpVal w x.2)
+  | .pair a b, v => dumpVal a v.1 ++ dumpVal b v.2
+  | .ptr t, v => match v with
+    | none => ["0"]
+    | some x => "1" :: dumpVal t x
+
+def errStr : Err → String
+  | .eof => "err eof"
+  | .hdr => "err hdr"
+  | .size => "err size"
+  | .len => "err len"
+
+def parseValAll (ty : Ty) (toks : List String) (norm : Bool := true) : Option (Val ty) :=
+  match parseVal norm ty toks with
+  | some (v, []) => some v
+  | _ => none
+
+def join (l : List String) : String := " ".intercalate l
+
+/-- raw primitive script -/
+def runOps (b : Bytes) : List String → St → List String → String
+  | [], s, acc => join (acc.reverse ++ [s!"@{s.ptr}"])
+  | o :: rest, s, acc =>
+    let fail (e : Err) (s' : St) := join (acc.reverse ++ [errStr e, s!"@{s'.ptr}"])
+    if o == "n" then
+      match nextChunkSize b s with
+      | .ok n s' => runOps b rest s' (s!"n={n}" :: acc)
+      | .err e s' => fail e s'
+    else if o == "e" then runOps b rest s (s!"e={boolStr (eof b s)}" :: acc)
+    else if o == "s" then
+      match readChunkAsString b s with
+      | .ok d s' => runOps b rest s' (("s=" ++ rawHex d) :: acc)
+      | .err e s' => fail e s'
+    else match o.toList with
+      | 'r' :: ds => (match (String.ofList ds).toNat? with
+        | some len => (match readChunk b len s with
+          | .ok d s' => runOps b rest s' (("r=" ++ rawHex d) :: acc)
+          | .err e s' => fail e s')
+        | none => "bad-op")
+      | _ => "bad-op"
+
+def step (_ : Unit) (line : String) : Unit × String :=
+  let r : String :=
+    match words line with
+    | "ops" :: h :: ops => (match parseHex h with
+      | some b => runOps b ops St.init []
+      | none => "bad-op")
+    | "wr" :: hs => (match hs.mapM parseHex with
+      | some l => toHex (l.flatMap chunk)
+      | none => "bad-op")
+    | op :: tyw :: rest =>
+      (match tyOf tyw with
+      | none => "bad-type"
+      | some ty =>
+        if op == "save" || op == "ssave" then
+          match parseValAll ty rest with
+          | some v => toHex (save ty v)
+          | none => "bad-op"
+        else if op == "rt" || op == "srt" then
+          match parseValAll ty rest with
+          | some v =>
+            let b := save ty v
+            (match loadArchive ty b with
+            | .ok w s => join (["ok"] ++ dumpVal ty w ++ (if op == "rt" then [s!"eof={boolStr (eof b s)}"] else []))
+            | .err e _ => errStr e)
+          | none => "bad-op"
+        else if op == "load" || op == "sload" then
+          match rest with
+          | [h] => (match parseHex h with
+            | some b => (match loadArchive ty b with
+              | .ok w s => join (["ok"] ++ dumpVal ty w ++ (if op == "load" then [s!"@{s.ptr}"] else []))
+              | .err e _ => errStr e)
+            | none => "bad-op")
+          | _ => "bad-op"
+        else if op == "J" then
+          -- J <ty> <archive hex> <final ptr> <value tokens of the implementation's result>
+          match rest with
+          | h :: p :: toks => (match parseHex h, p.toNat?, parseValAll ty toks false with
+            | some b, some p, some v => boolStr (Spec.loadOutputOk ty b v p)
+            | _, _, _ => "0")
+          | _ => "bad-op"
+        else "bad-op")
+    | _ => "bad-op"
+  ((), r)
+
+end Cppcms.C19.Driver
+
+def main : IO Unit := lineLoop () Cppcms.C19.Driver.step
